@@ -69,6 +69,9 @@ def main():
             if os.path.exists(mp):
                 meta = json.load(open(mp))
                 jobs.append((f"seeded/{name}", open(os.path.join(sd, name, "patch.diff")).read(), False, meta.get("expected_checks", [meta["property"]])))
+    skip = set(filter(None, os.environ.get("SELFTEST_SKIP", "").split(",")))
+    only = set(filter(None, os.environ.get("SELFTEST_ONLY", "").split(",")))
+    jobs = [j for j in jobs if not (set(j[3]) & skip) and (not only or set(j[3]) & only)]
     ok = True
     results = {}
 
@@ -100,7 +103,12 @@ def main():
     os.makedirs(os.path.join(ROOT, "out"), exist_ok=True)
     json.dump(results, open(os.path.join(ROOT, "out", "selftest.json"), "w"), indent=1)
     if mode == "all":
-        json.dump(results, open(os.path.join(ROOT, "seeded", "selftest_results.json"), "w"), indent=1, sort_keys=True)
+        rp = os.path.join(ROOT, "seeded", "selftest_results.json")
+        if (skip or only) and os.path.exists(rp):  # partial run: merge into the previous table
+            prev = json.load(open(rp))
+            prev.update(results)
+            results = prev
+        json.dump(results, open(rp, "w"), indent=1, sort_keys=True)
     sys.exit(0 if ok else 1)
 
 
